@@ -20,6 +20,9 @@ type termer struct {
 	depth int
 	errs  []string
 	at    ssa.Instruction // the use site for flow-sensitive reads of local objects
+	// resolvePhi, when set, picks the incoming value of a phi under an assumption
+	// the caller makes (e.g. "this endpoint is the initiator"); nil = cannot tell.
+	resolvePhi func(*ssa.Phi) ssa.Value
 }
 
 func (p *Prog) newTermer() *termer { return &termer{p: p} }
@@ -182,6 +185,11 @@ func (t *termer) Term(v ssa.Value) string {
 	case *ssa.Call:
 		return t.callTerm(x, -1)
 	case *ssa.Phi:
+		if t.resolvePhi != nil {
+			if r := t.resolvePhi(x); r != nil && r != ssa.Value(x) {
+				return t.Term(r)
+			}
+		}
 		var alts []string
 		for _, e := range x.Edges {
 			alts = append(alts, t.Term(e))
